@@ -190,3 +190,70 @@ Print Assumptions stale_buffer_sizes_refuted.
 Theorem life_example : every_k_clean 60 = true /\ next (fst (run (life_oracle 0) life init_state)) = 50%nat.
 Proof. exact life_every_single_fault_clean. Qed.
 Print Assumptions life_example.
+
+(* ==================================================================== round 2: the legacy stream decoders behind
+   ZSTD_decompressStream (ZV.Mem.AllocLegacy: ZSTD_initLegacyStream, ZBUFFv05/06/07 create / free / buffer (re)allocation,
+   ZSTD_freeDCtx releasing dctx->legacyContext) and POOL_create_advanced's init-error path.  The theorems about the
+   REPAIRED code hold for every history, every oracle (failing allocations, version-switch and buffer-growth decisions)
+   and every size; the code AS FOUND in /repo on 2026-10-02 is refuted on concrete histories (the findings). *)
+From ZV.Mem Require Import AllocLegacy AllocHistoryG AllocLegacyTheorems.
+
+(* every history of ZSTD_createDCtx / a legacy frame streamed (any version switch, any buffer growth) / ZSTD_freeDCtx,
+   then ZSTD_freeDCtx: nothing allocated, no double free, no use of a NULL / freed block *)
+Theorem legacy_any_history_no_leak : forall a b c ops o,
+  let s := fst (run o (Seq (gsession lop (lclient repaired a b c) ops) (lteardown repaired a b c)) init_state) in
+  live s = [] /\ errs s = [].
+Proof. exact legacy_any_history_no_leak_l. Qed.
+Print Assumptions legacy_any_history_no_leak.
+
+(* after every call of every such history: error <-> an allocation of that call failed *)
+Theorem legacy_any_history_error_iff_failure : forall a b c ops op o,
+  let s := fst (run o (Seq (gsession lop (lclient repaired a b c) ops) (lclient repaired a b c op)) init_state) in
+  status s = false <-> (0 < nfail s)%nat.
+Proof. exact legacy_any_history_error_iff_failure_l. Qed.
+Print Assumptions legacy_any_history_error_iff_failure.
+
+(* whatever failed before, while the DCtx is alive a legacy frame streamed with memory available succeeds *)
+Theorem legacy_reusable_after_any_history : forall a b c ops o1 o2, (forall k, fails o2 k = false) -> forall i o,
+  let s1 := fst (run o1 (gsession lop (lclient repaired a b c) ops) init_state) in
+  sget s1 X_dctx <> None ->
+  let s2 := fst (run o2 (lclient repaired a b c (LStream i o)) s1) in
+  status s2 = true /\ errs s2 = [].
+Proof. exact legacy_reusable_after_any_history_l. Qed.
+Print Assumptions legacy_reusable_after_any_history.
+
+(* the three legacy findings, on the code as found, with the repaired code clean on the same history and oracle; the
+   second components also show that the hypotheses of the three theorems above are satisfiable *)
+Theorem legacy_as_found_stale_size_refuted :
+  (exists e, snd (fst (run_l as_found [LCreate; LStream 10 20; LStream 10 20] [4%nat] [true; false; false; false; false; false])) = e /\ e <> [])
+  /\ run_l repaired [LCreate; LStream 10 20; LStream 10 20] [4%nat] [true; false; false; false; false; false] = ([], [], true).
+Proof. exact legacy_stale_size_refuted. Qed.
+Print Assumptions legacy_as_found_stale_size_refuted.
+
+Theorem legacy_as_found_dangling_context_refuted :
+  (exists e, snd (fst (run_l as_found [LCreate; LStream 10 20; LStream 10 20] [6%nat] [true; false; false; true; false; false])) = e /\ e <> [])
+  /\ run_l repaired [LCreate; LStream 10 20; LStream 10 20] [6%nat] [true; false; false; true; false; false] = ([], [], true).
+Proof. exact legacy_dangling_context_refuted. Qed.
+Print Assumptions legacy_as_found_dangling_context_refuted.
+
+Theorem zbuffv05_as_found_unchecked_refuted :
+  (exists e, snd (fst (run_l as_found [LCreate; LStream 10 20] [3%nat] [true; false; false])) = e /\ e <> [])
+  /\ run_l repaired [LCreate; LStream 10 20] [3%nat] [true; false; false] = ([], [], true).
+Proof. exact zbuffv05_unchecked_refuted. Qed.
+Print Assumptions zbuffv05_as_found_unchecked_refuted.
+
+(* POOL_create_advanced when the initialisation of its mutex / conditions fails (a ZSTD_malloc in DEBUGLEVEL >= 1 builds):
+   as found the error path locks the missing mutex and releases ctx and queue through the still-zero customMem *)
+Theorem pool_create_init_error_path_refuted :
+  (exists e, snd (fst (run_y false [3%nat])) = e /\ In (EForeignFree Y_ctx) e /\ In (EUseDead Y_mutex) e)
+  /\ run_y true [3%nat] = ([], [], false).
+Proof. exact pool_init_error_path_refuted. Qed.
+Print Assumptions pool_create_init_error_path_refuted.
+
+(* ... and the repaired constructor for every oracle and size: no ownership error, error <-> a request failed, nothing
+   owned after an error *)
+Theorem pool_create_init_error_path_repaired_sound : forall a b c o,
+  let s := fst (run o (Seq Forget (Call 0 (pool_create_y true a b c))) init_state) in
+  errs s = [] /\ (status s = false <-> (0 < nfail s)%nat) /\ (status s = false -> live s = []).
+Proof. exact pool_create_y_sound. Qed.
+Print Assumptions pool_create_init_error_path_repaired_sound.
